@@ -166,3 +166,110 @@ def check_loopless_solution(ctx, rule: str) -> None:
             ctx.bad(rule, target, f"loopless_solution {clause}", problems[clause])
         else:
             ctx.ok(rule, target, f"loopless_solution {clause}", f"{n} scenarios x {len(ROWS)} reaction classes: {text}")
+
+
+# ---------------------------------------------------------------------------------------- add_loopless
+class _Mat:
+    def __getitem__(self, key):
+        return self
+
+
+class _NS:
+    def __init__(self, rows):
+        self.T = [list(r) for r in rows]
+
+
+AL_RXNS = [("EX_1", (-1000.0, 1000.0), True), ("I_1", (-10.0, 10.0), False), ("I_2", (0.0, 5.0), False), ("I_3", (-7.0, 0.0), False), ("EX_2", (0.0, 40.0), True), ("I_4", (-3.0, 25.0), False)]
+AL_ROWS = [[1.0, -1.0, 0.0, 2.5], [0.0, 1e-12, 3.0, -1.0], [-0.5, 0.0, 0.0, 0.0]]
+
+
+def check_add_loopless(ctx, rule: str) -> None:
+    """add_loopless evaluated over the LP model with a given null-space basis: indicator, on/off and delta_g range
+    constraints for every internal reaction (none for boundary reactions), big-M over all bounds, one null-space row per
+    basis vector over the delta_g of the right reactions, entries below the cut-off dropped."""
+    prog = ctx.prog
+    fn = prog.func("cobra.flux_analysis.loopless", "add_loopless")
+    rxns = []
+    for rid, b, boundary in AL_RXNS:
+        r = RxnLP(rid, *b)
+        r.boundary = boundary
+        rxns.append(r)
+    model = ModelLP(rxns, {"I_1": 1.0})
+    model.tolerance = 1e-9
+    stubs = {
+        "cobra.util.array.create_stoichiometric_matrix": lambda it, ev, c, a, k: _Mat(),
+        "cobra.util.array.nullspace": lambda it, ev, c, a, k: _NS(AL_ROWS),
+        "cobra.util.create_stoichiometric_matrix": lambda it, ev, c, a, k: _Mat(),
+        "cobra.util.nullspace": lambda it, ev, c, a, k: _NS(AL_ROWS),
+    }
+    from ..interp import EXTERNAL
+
+    EXTERNAL.setdefault("numpy.array", lambda x, **k: list(x))
+    it = Interp(prog, NATIVE + (_Mat, _NS), ["cobra.flux_analysis.helpers.normalize_cutoff", "cobra.flux_analysis.loopless.add_loopless"], stubs, globals_={"Zero": Lin()})
+    try:
+        _run("add_loopless", lambda: it.call(fn, [model], {}))
+    except EvalRaise as exc:
+        ctx.bad(rule, fn, "add_loopless formulation", f"add_loopless raises {exc.exc_type}")
+        return
+    cons = {c.name: c for c in model.solver.constraints.items}
+    vars_ = {v.name: v for v in model.solver.variables.items}
+    big_m = max(max(abs(x) for x in b) for _, b, _ in AL_RXNS)
+    problems = []
+    internal = [rid for rid, _, boundary in AL_RXNS if not boundary]
+    ind_of, dg_of = {}, {}
+    for rid, b, boundary in AL_RXNS:
+        r = model.reactions.get_by_id(rid)
+        fwd, rev = r.forward_variable.name, r.reverse_variable.name
+        mine = [c for c in cons.values() if fwd in {v.name for v in c.expression.terms}]
+        if boundary:
+            if mine:
+                problems.append(f"the boundary reaction {rid} gets a loop constraint ({mine[0].name})")
+            continue
+        # on/off:  v - M a in [-M, 0]  (any positive scaling)
+        ok_onoff = None
+        for c in mine:
+            t = {v.name: k for v, k in c.expression.terms.items()}
+            others = [n for n in t if n not in (fwd, rev)]
+            if t.get(fwd) and t.get(rev) == -t[fwd] and len(others) == 1:
+                k = t[fwd]
+                a = others[0]
+                lo, hi = (c.lb, c.ub) if k > 0 else (None if c.ub is None else -c.ub, None if c.lb is None else -c.lb)
+                if lo is not None and hi is not None and abs(t[a] / k + big_m) < 1e-9 and abs(lo / abs(k) + big_m) < 1e-9 and abs(hi) < 1e-9 and vars_.get(a) is not None and vars_[a].type == "binary":
+                    ok_onoff = a
+        if ok_onoff is None:
+            problems.append(f"internal reaction {rid}: no constraint -M(1-a) <= v <= M a with a binary indicator and M = {big_m:g} (the largest bound of the model)")
+            continue
+        ind_of[rid] = ok_onoff
+        # delta_g range: G + (M+1) a in [1, M]
+        found = None
+        for c in cons.values():
+            t = {v.name: k for v, k in c.expression.terms.items()}
+            if ok_onoff in t and len(t) == 2 and fwd not in t:
+                g = [n for n in t if n != ok_onoff][0]
+                k = t[g]
+                if k > 0 and abs(t[ok_onoff] / k - (big_m + 1)) < 1e-9 and c.lb is not None and c.ub is not None and abs(c.lb / k - 1) < 1e-9 and abs(c.ub / k - big_m) < 1e-9:
+                    gv = vars_.get(g)
+                    if gv is not None and gv.lb is None and gv.ub is None and gv.type == "continuous":
+                        found = g
+        if found is None:
+            problems.append(f"internal reaction {rid}: no constraint 1 <= G + (M+1) a <= M on a free driving-force variable G (G must be at least 1 when the reaction is off/backward and at most -1 when it runs forward)")
+            continue
+        dg_of[rid] = found
+    if not problems:
+        rows_found = []
+        for c in cons.values():
+            t = {v.name: round(k, 12) for v, k in c.expression.terms.items()}
+            if t and set(t) <= set(dg_of.values()) and (c.lb, c.ub) == (0, 0):
+                rows_found.append(t)
+        want_rows = []
+        for row in AL_ROWS:
+            want_rows.append({dg_of[rid]: round(w, 12) for rid, w in zip(internal, row) if abs(w) > 1e-9})
+        key = lambda d: sorted(d.items())
+        if sorted(map(key, rows_found)) != sorted(map(key, [w for w in want_rows if w])):
+            problems.append(f"the null-space constraints are {rows_found}; expected one row per basis vector over the driving forces of the internal reactions in their own order, entries below the cut-off dropped: {want_rows}")
+    if model.solver.objective.name != "original_objective":
+        problems.append("add_loopless replaces the objective")
+    if problems:
+        ctx.bad(rule, fn, "add_loopless formulation", "; ".join(problems[:2]))
+    else:
+        ctx.ok(rule, fn, "add_loopless formulation", f"{len(internal)} internal and {len(AL_RXNS) - len(internal)} boundary reactions, {len(AL_ROWS)} basis vectors: indicator / on-off / driving-force range per internal reaction with M over all bounds, null-space rows over the right driving forces")
